@@ -121,6 +121,9 @@ int KSI_Signature_verifyWithPolicy(KSI_Signature *sig, const KSI_DataHash *docHs
 		context.docAggrLevel = rootLevel;
 	} else {
 		context = *verificationContext;
+		/* Explicitly given document hash and level take precedence over the ones in the context. */
+		if (docHsh != NULL) context.documentHash = docHsh;
+		if (rootLevel != 0) context.docAggrLevel = rootLevel;
 	}
 	context.signature = sig;
 
